@@ -102,6 +102,94 @@ Proof.
 Qed.
 
 (* ------------------------------------------------------------------ *)
+(** * one RouteParams object dispatched again and again (recycled message, nested routers) *)
+
+(* which handler runs (the whole trace) does not depend on the RouteParams the
+   request carries: ServeCOAP takes the path from the Uri-Path options *)
+Lemma serve_into_trace st mws order segs p0 :
+  fst (serve_into st mws order segs p0) = fst (serve st mws order segs).
+Proof. reflexivity. Qed.
+
+Lemma serve_into_params st mws order segs p0 :
+  let path := filter_path (path_of segs) in
+  snd (serve_into st mws order segs p0) = match_into (scan order path None O) path p0.
+Proof. reflexivity. Qed.
+
+Lemma last_binding_acc : forall ns vs k acc,
+  last_binding ns vs k acc =
+  match last_binding ns vs k None with Some v => Some v | None => acc end.
+Proof.
+  induction ns as [|n ns IH]; intros vs k acc; cbn [last_binding]; [reflexivity|].
+  destruct vs as [|v vs]; [reflexivity|].
+  destruct (str_eqb n k); [|apply IH].
+  rewrite (IH vs k (Some v)). destruct (last_binding ns vs k None); reflexivity.
+Qed.
+
+(* Match on a used RouteParams: Path and PathTemplate are overwritten, every
+   variable of the selected route gets the value it gets in a NEW RouteParams,
+   every other name keeps what the object held *)
+Theorem reused_params r path p0 :
+  rp_path (match_into (Some r) path p0) = path /\
+  rp_tmpl (match_into (Some r) path p0) = r_pat r /\
+  forall k, vlookup (rp_map (match_into (Some r) path p0)) k =
+            match vlookup (rp_map (match_into (Some r) path rp_new)) k with
+            | Some v => Some v
+            | None => vlookup (rp_map p0) k
+            end.
+Proof.
+  split; [reflexivity|]. split; [reflexivity|]. intros k.
+  cbn [match_into]. unfold rp_map, rp_new. cbn [rp_vars].
+  destruct (extract r path) as [vals|].
+  - rewrite !vars_map_lookup. cbn [vlookup]. apply last_binding_acc.
+  - reflexivity.
+Qed.
+
+Lemma run_reuse_app mws : forall a b st p,
+  run_reuse st mws (a ++ b) p =
+  run_reuse st mws a p ++ run_reuse (apply_ops st (hops a)) mws b (reuse_params st mws a p).
+Proof.
+  induction a as [|s a IH]; intros b st p; [reflexivity|].
+  destruct s as [o|segs order]; cbn [app run_reuse reuse_params].
+  - rewrite IH. reflexivity.
+  - rewrite IH. reflexivity.
+Qed.
+
+Lemma run_reuse_length mws : forall h st p, length (run_reuse st mws h p) = hserves h.
+Proof.
+  induction h as [|s h IH]; intros st p; [reflexivity|].
+  destruct s as [o|segs order]; cbn [run_reuse]; unfold hserves in *; cbn [filter length]; now rewrite IH.
+Qed.
+
+(* the k-th dispatch of ANY history in which one RouteParams object is handed
+   from dispatch to dispatch, starting from ANY content [p0] (new, or what an
+   outer router wrote): the handler trace is that of a dispatch with a new
+   RouteParams on a router on which only the operations before it were
+   performed -- so the property predicate holds for it with the RouteParams of
+   that dispatch --, and the object afterwards is [match_into] of the selected
+   route for the CURRENT path applied to what the object held *)
+Theorem reuse_dispatch st0 mws pre segs order post p0 : wf st0 ->
+  let st := apply_ops st0 (hops pre) in
+  let p := reuse_params st0 mws pre p0 in
+  let path := filter_path (path_of segs) in
+  let out := serve_into st mws order segs p in
+  nth_error (run_reuse st0 mws (pre ++ HServe segs order :: post) p0) (hserves pre) = Some out /\
+  fst out = fst (serve st mws order segs) /\
+  snd out = match_into (scan order path None O) path p /\
+  (Permutation order (routes_of st) ->
+   dispatch_class (sregs_of st) (st_default st) mws path
+     (fst out) (snd (serve st mws order segs)) = 0%N).
+Proof.
+  intros Hwf st p path out. split; [|split; [|split]].
+  - rewrite run_reuse_app. cbn [run_reuse]. fold st. fold p. fold out.
+    rewrite nth_error_app2 by (rewrite run_reuse_length; lia).
+    rewrite run_reuse_length, Nat.sub_diag. reflexivity.
+  - reflexivity.
+  - reflexivity.
+  - intros Hp. change (fst out) with (fst (serve st mws order segs)).
+    apply dispatch_spec; [|exact Hp]. unfold st. now apply apply_ops_wf.
+Qed.
+
+(* ------------------------------------------------------------------ *)
 (** * fine-grained locking *)
 
 Definition count {A} (f : A -> bool) (l : list A) : nat := length (filter f l).
